@@ -3,9 +3,9 @@ package main
 import (
 	"fmt"
 	"net"
-	"sort"
 	"net/netip"
 	"os"
+	"sort"
 	"strings"
 	"sync"
 	"syscall"
@@ -276,8 +276,8 @@ func streamRListen(c *ctx) {
 						time.Sleep(60 * time.Millisecond)
 					}
 				},
-				onError:     func(error) { mu.Lock(); errs++; mu.Unlock() },
-				stop:        n%3 == 2,
+				onError: func(error) { mu.Lock(); errs++; mu.Unlock() },
+				stop:    n%3 == 2,
 			}
 			q := make(chan os.Signal, 1)
 			done := make(chan error, 1)
